@@ -66,7 +66,7 @@ StepTags(k) ==
                    \cup (IF r.issue # <<>> THEN {Tag("run", "issue", "", "")} ELSE {})
                    \cup (IF r.panics # <<>> THEN {Tag("run", "panic", "", "")} ELSE {})
     IN IF ~WF(pre) \/ (r.c \notin DOMAIN pre.conns /\ r.cmd.verb # "!open")
-       THEN runTags \cup InvTags(obs) \cup {Tag("run", "skipped", "", "")}
+       THEN runTags \cup (InvTags(obs) \ InvTags(pre)) \cup {Tag("run", "skipped", "", "")}
        ELSE LET R == Apply(pre, r.c, r.cmd) IN
             runTags \cup StateTags(R.st, obs) \cup OutTagsFor(r.c, R.out, r.outs) \cup (InvTags(obs) \ InvTags(pre))
 
@@ -75,7 +75,12 @@ Report(k, tags) ==
         cfg == CfgOf(Rec[ResetIdx(k)].cfg)
         pre == FromSnap(Rec[k - 1].post, cfg)
         ctx == Ctx(pre, r.c, r.cmd)
-        owners == {P \in AllProps : \E t \in tags : Owns(P, ctx, t)}
+        died == \E t \in tags : t.t = "run" /\ t.a \in {"dead", "panic"}
+        (* a task that died leaves a ghost user and a stale slot: consequences, not causes *)
+        tags2 == IF died THEN {t \in tags : ~(t.t = "inv" \/ (t.t = "st" /\ t.a \in {"conns", "connCnt"})
+                                               \/ (t.t = "out" /\ t.b = "EOF"))}
+                 ELSE tags
+        owners == {P \in AllProps : \E t \in tags2 : Owns(P, ctx, t)}
         skipped == Tag("run", "skipped", "", "") \in tags
         R == Apply(pre, r.c, r.cmd)
         exp == IF skipped THEN <<>> ELSE R.out
@@ -90,7 +95,9 @@ Report(k, tags) ==
 Check(k) ==
     IF "reset" \in DOMAIN Rec[k] THEN TRUE
     ELSE LET tags == StepTags(k) IN
-         IF tags = {} THEN TRUE ELSE Report(k, tags)
+         IF tags = {} THEN TRUE
+         ELSE IF tags = {Tag("run", "skipped", "", "")} THEN PrintT(<<"SKIPPED", k>>)
+         ELSE Report(k, tags)
 
 Init == i = 1
 Next == i <= Len(Rec) /\ Check(i) /\ i' = i + 1
